@@ -256,3 +256,23 @@ Proof. exists ["gfm"], ["gfm"]. repeat split. Qed.
 Lemma append_flags_may_overlap :
   clap_accepts (["extensions"; "smart"] ++ ["extensions"; "files"; "files"]) = true.
 Proof. reflexivity. Qed.
+
+(* ------------------------------------------------------------------ outside nonutf8_argv_with_config *)
+Lemma all_utf8_map_some : forall real, existsb is_nonutf8 real = false -> exists r, real = map Some r.
+Proof.
+  induction real as [|a l IH]; intro H; [exists []; reflexivity|].
+  cbn [existsb] in H. apply orb_false_iff in H. destruct H as [Ha Hl].
+  destruct a as [x|]; [|discriminate Ha]. destruct (IH Hl) as [r ->]. exists (x :: r). reflexivity.
+Qed.
+
+Lemma splice_outside_known : forall real config,
+  nonutf8_argv_with_config real true = false ->
+  exists r, real = map Some r /\ splice real config = Ok (r ++ config).
+Proof.
+  intros real config H. unfold nonutf8_argv_with_config in H. cbn [andb] in H.
+  destruct (all_utf8_map_some real H) as [r ->]. exists r. split; [reflexivity | apply splice_all_utf8].
+Qed.
+
+Lemma splice_witness_in_known :
+  nonutf8_argv_with_config [Some (w "comrak"); None; Some (w "b.md")] true = true.
+Proof. reflexivity. Qed.
